@@ -11,6 +11,7 @@ import (
 	"os"
 	"path"
 	"sort"
+	"strings"
 	"sync"
 	"syscall"
 	"time"
@@ -304,6 +305,20 @@ func (w *World) die() {
 
 func clean(p string) string { return path.Clean(p) }
 
+// NameMax is the longest file name (one path component) the simulated file
+// system stores, as on ext4, xfs, btrfs and tmpfs.
+const NameMax = 255
+
+// tooLong reports whether a component of p exceeds NameMax (ENAMETOOLONG).
+func tooLong(p string) bool {
+	for _, c := range strings.Split(p, "/") {
+		if len(c) > NameMax {
+			return true
+		}
+	}
+	return false
+}
+
 func (w *World) resolve(p string, follow bool) (string, *Node) {
 	p = clean(p)
 	n := w.Nodes[p]
@@ -387,6 +402,10 @@ func stat(op, name string, follow bool) (FileInfo, error) {
 		w.log(OpRec{Kind: op, Path: name, Err: "EIO", Task: w.task()})
 		return nil, pathErr(op, name, syscall.EIO)
 	}
+	if tooLong(name) {
+		w.log(OpRec{Kind: op, Path: name, Err: "ENAMETOOLONG", Task: w.task()})
+		return nil, pathErr(op, name, syscall.ENAMETOOLONG)
+	}
 	_, n := w.resolve(name, follow)
 	if n == nil {
 		w.log(OpRec{Kind: op, Path: name, Err: "ENOENT", Task: w.task()})
@@ -417,6 +436,10 @@ func OpenFile(name string, flag int, perm FileMode) (*File, error) {
 		if w.meta("open") {
 			w.log(OpRec{Kind: "open", Path: name, Err: "EIO", Task: w.task()})
 			return nil, pathErr("open", name, syscall.EIO)
+		}
+		if tooLong(name) {
+			w.log(OpRec{Kind: "open", Path: name, Err: "ENAMETOOLONG", Task: w.task()})
+			return nil, pathErr("open", name, syscall.ENAMETOOLONG)
 		}
 		if n == nil {
 			w.log(OpRec{Kind: "open", Path: name, Err: "ENOENT", Task: w.task()})
@@ -452,6 +475,9 @@ func OpenFile(name string, flag int, perm FileMode) (*File, error) {
 		}
 		w.mu.Unlock()
 		return nil, pathErr("open", name, e)
+	}
+	if tooLong(name) {
+		return refuse(syscall.ENAMETOOLONG, "ENAMETOOLONG")
 	}
 	if n != nil && flag&O_EXCL != 0 {
 		return refuse(syscall.EEXIST, "EEXIST")
@@ -646,6 +672,9 @@ func Remove(name string) error {
 		w.mu.Unlock()
 		return pathErr("remove", name, fail)
 	}
+	if tooLong(name) {
+		return finish(pathErr("remove", name, syscall.ENAMETOOLONG), "ENAMETOOLONG")
+	}
 	if n == nil {
 		return finish(pathErr("remove", name, syscall.ENOENT), "ENOENT")
 	}
@@ -698,6 +727,9 @@ func Rename(oldpath, newpath string) error {
 		w.log(OpRec{Kind: "rename", Path: oldpath + " -> " + newpath, Err: fail.Error(), Mut: w.NMut, Task: w.task()})
 		w.mu.Unlock()
 		return &os.LinkError{Op: "rename", Old: oldpath, New: newpath, Err: fail}
+	}
+	if tooLong(oldpath) || tooLong(newpath) {
+		return finish(syscall.ENAMETOOLONG, "ENAMETOOLONG")
 	}
 	if n == nil {
 		return finish(syscall.ENOENT, "ENOENT")
